@@ -260,15 +260,21 @@ Trace run_sliced(Sys& s, const Case& c, const std::vector<std::vector<uint32_t>>
     std::vector<Event> ev = c.events;
     std::sort(ev.begin(), ev.end(), [](const Event& a, const Event& b) { return a.pos < b.pos; });
     size_t seg = 0;
+    // An exceptional exit (unimplemented feature / assertion) abandons the rest of that Run() call, so nothing after it is
+    // comparable between slicings: the run stops there and only the outcome and the boundaries before it are compared.
     auto run_segment = [&](size_t k) {
         for (uint32_t n : slices[k]) {
             auto o = s.guarded([&] { s.t->Run(n); });
-            if (o.kind != 0 && t.outcome.empty())
+            if (o.kind != 0) {
                 t.outcome = "segment " + std::to_string(k) + ": " + o.what;
+                return false;
+            }
         }
+        return true;
     };
     for (size_t e = 0; e <= ev.size(); ++e) {
-        run_segment(seg++);
+        if (!run_segment(seg++))
+            break;
         t.obs.push_back(s.observe());
         t.log_len.push_back(s.log.size());
         if (e < ev.size())
@@ -518,8 +524,54 @@ Case minimise(const Case& c0, const std::function<bool(const Case&)>& still) {
     return c;
 }
 
+// triage aid (C06_TRACE=1 with --replay): for every prefix length k, one Run(k) from Reset against the single-stepped run
+void trace_prefixes(const Case& c0) {
+    Sys& s = sys();
+    std::vector<std::string> names;
+    s.observe(&names);
+    std::vector<std::vector<uint64_t>> step;
+    for (uint32_t k = 0; k <= c0.n; ++k) {
+        Case c = c0;
+        c.n = k;
+        std::vector<uint32_t> len = segment_lengths(c);
+        auto A = refine(len, 0, false), C = refine(len, 0, true);
+        for (size_t i = 0; i < len.size(); ++i)
+            A[i] = {len[i]};
+        Trace ta = run_sliced(s, c, A), tc = run_sliced(s, c, C);
+        if (ta.obs.empty() || tc.obs.empty())
+            continue;
+        if (ta.obs.back() != tc.obs.back()) {
+            std::fprintf(stderr, "first differing prefix: n=%u: %s\n  outcomes: '%s' vs '%s'\n", k,
+                         sysinst::first_difference(ta.obs.back(), tc.obs.back(), names, 12).c_str(), ta.outcome.c_str(), tc.outcome.c_str());
+            for (uint32_t j = k > 24 ? k - 24 : 0; j <= k + 2; ++j) {
+                Case d = c0;
+                d.n = j;
+                std::vector<uint32_t> l2 = segment_lengths(d);
+                auto A2 = refine(l2, 0, false), C2 = refine(l2, 0, true);
+                for (size_t i = 0; i < l2.size(); ++i)
+                    A2[i] = {l2[i]};
+                Trace a2 = run_sliced(s, d, A2);
+                uint32_t ca = s.t->MMIORead(0x28) | (uint32_t)s.t->MMIORead(0x2A) << 16;
+                flat::State ra = s.regs();
+                Trace c2 = run_sliced(s, d, C2);
+                uint32_t cc = s.t->MMIORead(0x28) | (uint32_t)s.t->MMIORead(0x2A) << 16;
+                flat::State rc2 = s.regs();
+                std::fprintf(stderr, "  n=%u one-call pc=%llx ie=%llu ipv=%llu ip2=%llu sp=%llx t0=%x | steps pc=%llx ie=%llu ipv=%llu ip2=%llu sp=%llx t0=%x\n", j,
+                             (unsigned long long)ra[flat::F_pc], (unsigned long long)ra[flat::F_ie], (unsigned long long)ra[flat::F_ipv],
+                             (unsigned long long)ra[flat::F_ip + 2], (unsigned long long)ra[flat::F_sp], ca, (unsigned long long)rc2[flat::F_pc],
+                             (unsigned long long)rc2[flat::F_ie], (unsigned long long)rc2[flat::F_ipv], (unsigned long long)rc2[flat::F_ip + 2],
+                             (unsigned long long)rc2[flat::F_sp], cc);
+            }
+            return;
+        }
+    }
+    std::fprintf(stderr, "no differing prefix up to n=%u\n", c0.n);
+}
+
 vf::Result check(const Case& c) {
     Sys& s = sys();
+    if (std::getenv("C06_TRACE"))
+        trace_prefixes(c);
     std::vector<uint32_t> len = segment_lengths(c);
     auto A = refine(len, 0, false);
     for (size_t i = 0; i < len.size(); ++i)
@@ -533,7 +585,7 @@ vf::Result check(const Case& c) {
     auto cmp = [&](const Trace& x, const Trace& y, const char* what) -> vf::Result {
         if (x.outcome != y.outcome)
             return vf::Result::fail(std::string("C06:outcome:") + what, std::string("runs end differently: '") + x.outcome + "' vs '" + y.outcome + "' (" + what + ")");
-        for (size_t k = 0; k < x.obs.size(); ++k) {
+        for (size_t k = 0; k < x.obs.size() && k < y.obs.size(); ++k) {
             if (x.obs[k] != y.obs[k]) {
                 std::string d = sysinst::first_difference(x.obs[k], y.obs[k], names);
                 std::string first = d.substr(0, d.find(':'));
@@ -555,7 +607,6 @@ vf::Result check(const Case& c) {
     if (!r.ok)
         return r;
     // classes / non-triviality, from the single-stepped run's final state
-    const std::vector<uint64_t>& fin = ta.obs.back();
     bool entered = false, audio_frames = false;
     for (auto& e : ta.log)
         if (e.kind == 'A')
@@ -564,7 +615,8 @@ vf::Result check(const Case& c) {
     for (unsigned l = 0; l < 4; ++l)
         counters += s.t->DataRead((uint16_t)(0x2040 + l), true);
     entered = counters != 0;
-    (void)fin;
+    if (!ta.outcome.empty())
+        vf::klass("ended in an exceptional exit (compared up to it)");
     if (entered)
         vf::klass("a handler ran");
     if (audio_frames)
